@@ -11,7 +11,7 @@ def run(tier, seed):
                    needs_items=('ff_k9', 'ff_f3', 'ff_theta', 'ff_phi', 'ff_t1', 'ff_t2', 'ff_t3', 'ff_above', 'ff_db', 'ff_rat', 'ffp_scale'),
                    extra_vo=('Model/FarField.v', 'Proofs/FarFieldP.v', 'Proofs/Zenith.v', 'Corr/FFDriver.v'))
     rng = random.Random(seed)
-    ff_cases(chk, rng, 48 if tier == 'quick' else 400, (None, None, 'ideal', 'ideal', 'real'))
-    nor = 16 if (tier == 'quick' and not chk.broken) else (48 if tier == 'quick' else 200)
+    ff_cases(chk, rng, 48 if tier == 'quick' else 1600, (None, None, 'ideal', 'ideal', 'real'))
+    nor = 16 if (tier == 'quick' and not chk.broken) else (48 if tier == 'quick' else 800)
     run_oracle(chk, rng, nor, 'ff.c10_oracle', 'c10-oracle', (None, 'ideal'), probes=[os.path.join(ROOT, 'probes', 'C10-sloper.json')])
     return chk.finish()
